@@ -27,6 +27,10 @@ import Bng.Model.KeySpec
       answers "already terminating" = `busy`), `tresume` the second (= `delete` on the record as it is then); every
       other operation may run in between.  A session without an address has nothing to release: its `tpark` runs
       both sections;
+    * state.Store hands out and keeps POINTERS: every Get* returns the stored record itself, and Create*/Update* of
+      leases, sessions and NAT bindings store the caller's object (subscribers: a private copy, `aliasOwn = false`).
+      A field write through such a pointer is `poke`: the stored record changes, no index follows.  The caller's own
+      objects are not store state — the driver keeps them (`updsame` = Update* with the kept object);
     * delete: every type deletes the index entries BY VALUE of the record's current keys, whoever they point to
       (`condDelete = false`; `true` is the repaired behaviour, used by none of the three);
     * lookup by key: index, then primary map; an entry whose primary is gone is observed as `dangling`
@@ -90,6 +94,10 @@ inductive Op where
   /-- second phase of a parked TerminateSession: the second critical section (indexes deleted by value, session
       removed) -/
   | tresume (id : Nat)
+  /-- a field write through a pointer that ALIASES the stored record (state.Store: the object returned by Get*, and —
+      for leases, sessions and NAT bindings, whose Create*/Update* store the caller's pointer — the caller's own
+      object): the stored record's key in `slot` becomes `w`, no index is touched, no API is called -/
+  | poke (id : Nat) (slot : Bool) (w : Option Nat)
   deriving Repr, DecidableEq
 
 structure Cfg where
@@ -102,6 +110,10 @@ structure Cfg where
   deleteMissingOk : Bool
   /-- the index stores a copy of the record instead of the primary id -/
   copyIdx : Bool
+  /-- Create*/Update* keep the CALLER's pointer as the stored record (state.Store leases, sessions, NAT bindings);
+      false: they store a private copy (state.Store subscribers).  Used by the driver: a write to the caller's own
+      object is a `poke` of the stored record exactly when this is set. -/
+  aliasOwn : Bool := false
   /-- the operations (and argument shapes) the Go API offers -/
   accepts : Op → Bool
 
@@ -115,6 +127,7 @@ def submgrAccepts : Op → Bool
   | .update _ _ _ => false
   | .setKey _ slot _ => slot
   | .load _ => false
+  | .poke _ _ _ => false
   | _ => true
 
 def storeAccepts : Op → Bool
@@ -145,6 +158,7 @@ def memAccepts : Op → Bool
   | .load l => l.all fun e => e.2.k0 == none && e.2.k1 != none
   | .tpark _ => false
   | .tresume _ => false
+  | .poke _ _ _ => false
   | _ => true
 
 /-- subscriber.Manager -/
@@ -155,7 +169,7 @@ def submgr : Cfg :=
 /-- state.Store leases and sessions -/
 def stLease : Cfg :=
   { dup0 := .overwrite, dup1 := .overwrite, upd := .primaryOnly, condDelete := false,
-    deleteMissingOk := false, copyIdx := false, accepts := storeAccepts }
+    deleteMissingOk := false, copyIdx := false, aliasOwn := true, accepts := storeAccepts }
 
 /-- state.Store subscribers -/
 def stSub : Cfg :=
@@ -165,7 +179,7 @@ def stSub : Cfg :=
 /-- state.Store NAT bindings (slot 0 = private endpoint, slot 1 = public endpoint) -/
 def stNat : Cfg :=
   { dup0 := .overwrite, dup1 := .overwrite, upd := .primaryOnly, condDelete := false,
-    deleteMissingOk := false, copyIdx := false, accepts := natAccepts }
+    deleteMissingOk := false, copyIdx := false, aliasOwn := true, accepts := natAccepts }
 
 /-- allocator.MemoryAllocationStore (slot 1 = byIP; slot 0 unused) -/
 def memstore : Cfg :=
@@ -277,6 +291,12 @@ def delete (c : Cfg) (st : State) (id : Nat) : State × Obs :=
                i0 := idxDrop c.condDelete st.i0 r.k0 id,
                i1 := idxDrop c.condDelete st.i1 r.k1 id }, .ok)
 
+/-- a write through an aliasing pointer: the stored record follows, the indexes do not -/
+def poke (st : State) (id : Nat) (slot : Bool) (w : Option Nat) : State × Obs :=
+  match AMap.lookup st.prim id with
+  | none => (st, .none)
+  | some r => ({ st with prim := AMap.insert st.prim id (r.set slot w) }, .ok)
+
 /-- first critical section of Manager.TerminateSession (+ the whole call when there is no address to release) -/
 def tpark (c : Cfg) (st : State) (id : Nat) : State × Obs :=
   if id ∈ st.term then (st, .busy) else
@@ -317,6 +337,7 @@ def step (c : Cfg) (st : State) (op : Op) : State × Obs :=
   | .delete id => if id ∈ st.term then (st, .busy) else delete c st id
   | .tpark id => tpark c st id
   | .tresume id => tresume c st id
+  | .poke id slot w => poke st id slot w
   | .get id => (st, get st id)
   | .byKey slot v => (st, byKey c st slot v)
   | .list => (st, .ids (sortNats (AMap.keys st.prim)))
